@@ -132,11 +132,11 @@ pub mod fallback {
     // Returns the least non-negative remainder of `x` (mod `m`).
     #[inline]
     pub fn rem_euclid(x: f32, m: f32) -> f32 {
-        // The remainder has the sign of `x`. Only add `m` if it is really
+        // The remainder has the sign of `x`. Only add `|m|` if it is really
         // negative: for an exact negative multiple of `m` (or -0.0) the
-        // result is zero, not `m`
+        // result is zero, not `m`. The modulus may be negative as well
         let r = x % m;
-        if r < 0.0 { r + m } else { r }
+        if r < 0.0 { r + abs(m) } else { r }
     }
     /// Returns the approximate reciprocal of the square root of `x`.
     #[inline]
